@@ -12,8 +12,9 @@ Require Import ScanFull InstsFull Pass.
    whatever its sibling did to it earlier in this very poll (a leaf may wake a leaf of the other inner combinator from inside its poll).
    The result is the leaf-level trace of the nest, in the event vocabulary of the single-level models. *)
 
-Inductive nkind := NJJ | NJT | NJR | NRJ | NMM | NCM | NZM | NGJ | NGM.
-(* join of joins | a.join(b) of joins | join of races | race of joins | merge of merges | chain of merges | zip of merges | FutureGroup of joins | StreamGroup of merges *)
+Inductive nkind := NJJ | NJT | NJR | NRJ | NMM | NCM | NZM | NGJ | NGM | NTT.
+(* join of joins | a.join(b) of joins | join of races | race of joins | merge of merges | chain of merges | zip of merges | FutureGroup of joins | StreamGroup of merges
+   | try_join of try_joins *)
 Definition nstreams (k: nkind) : bool := match k with NMM | NCM | NZM | NGM => true | _ => false end.
 
 Inductive nact := ALeaf (e: ev) | AWake.        (* inside an inner poll: an event of a leaf | a wake-up of the waker the inner combinator holds *)
@@ -51,6 +52,7 @@ Section Nest.
   Definition run_level (scs: list (list step)) (hist: list op) : list ev :=
     match kind with
     | NJR => tr _ (race_world scs hist)
+    | NTT => tr _ (join_world selective true tuples scs hist)
     | _ => if nstreams kind then tr _ (merge_world selective scs hist) else tr _ (join_world selective false tuples scs hist)
     end.
   (* does the outer level hand its caller's waker straight to the inner combinators?  (always in the non-selective build; race and chain in every build) *)
@@ -199,6 +201,7 @@ Section Nest.
     | AWake :: r => match gs with Some p :: g => EW p :: play r g | None :: g => play r g | [] => play r [] end
     end.
   Definition vals_of (s: nst) (c: nat) : list nat := match nth c (ress s) None with Some (OVals vs) => vs | _ => [] end.
+  Definition oks_of (s: nst) (c: nat) : list nat := match nth c (ress s) None with Some (OOk vs) => vs | _ => [] end.
   (* print: a poll of child c is replaced by what happened inside the inner combinator *)
   Fixpoint walk (fuel: nat) (actions: list (list nact)) (d: list ev) (s: nst) : nst :=
     match fuel with
@@ -222,6 +225,8 @@ Section Nest.
           (* a FutureGroup of joins: the member in slot k (= inner combinator k) has resolved - its output vector *)
           let vs' := match kind, k with NGJ, Some k' => vals_of s k' | _, _ => vs end in
           walk f actions r (nemit s [EEndR (OSome None vs')])
+      | EEndR (OErr e) :: r => walk f actions r (nemit s [EEndR (OErr e)])       (* try_join of try_joins: the error of the inner try_join that failed *)
+      | EEndR (OOk _) :: r => walk f actions r (nemit s [EEndR (OOk (oks_of s 0 ++ oks_of s 1))])
       | EEndR _ :: r =>
           walk f actions r (nemit s [EEndR (OVals (match kind with NRJ => vals_of s (win s) | _ => vals_of s 0 ++ vals_of s 1 end))])
       | _ :: r => walk f actions r s
